@@ -701,6 +701,7 @@ TRANSPARENT = [
     r"^std::ops::Index::index$", r"^std::ops::IndexMut::index_mut$",
     r"^std::future::IntoFuture::into_future$", r"^std::pin::Pin::<Ptr>::(as_mut|get_mut|as_ref|get_ref|new_unchecked|get_unchecked_mut|into_inner)",
     r"^std::pin::Pin::<&'a mut T>::(get_mut|get_unchecked_mut)", r"^std::iter::IntoIterator::into_iter$",
+    r"^(std|core|futures_util|futures_core)::(future::)?Future::poll$", r"^futures_util::FutureExt::poll_unpin$",
 ]
 CLONE = [r"^std::clone::Clone::clone$", r"^core::clone::Clone::clone$"]
 _TRANSPARENT_RX = re.compile("|".join(TRANSPARENT))
